@@ -159,6 +159,9 @@ func c07Run(w *world.World, q *c07Query) {
 		o := append(opts, core.WithLabelPrefix(q.Prefix))
 		if q.Apply {
 			err = core.ListLabelsApply(q.Repo, st, func(l model.LabelDescriptor) error {
+				if len(q.Pairs) < 40 {
+					time.Sleep(300 * time.Microsecond) // a consumer slower than the background fetch of the next pages
+				}
 				q.Pairs = append(q.Pairs, [2]string{l.Name, l.BundleID})
 				return nil
 			}, o...)
